@@ -154,6 +154,18 @@ func (m *Machine) ensureInit(pkg *ssa.Package) {
 
 // initCall runs one call of a package initialiser; a failing call poisons only its own result.
 func (m *Machine) initCall(fr *frame, instr *ssa.Call) {
+	// Package-level regular expressions are compiled by every path again (tens of thousands of interpreted
+	// instructions). With "skip_init_regexp" they become opaque values: any later use ends the path as
+	// unsupported (never silently), so this is only an optimisation for code that does not touch them.
+	if m.W.SpecFile.SkipInitRegexp {
+		if f, ok := instr.Call.Value.(*ssa.Function); ok && instr.Call.Method == nil {
+			switch f.String() {
+			case "regexp.MustCompile", "regexp.MustCompilePOSIX":
+				fr.env[instr] = Opaque{"package-level regexp (skip_init_regexp)"}
+				return
+			}
+		}
+	}
 	depth := m.depth
 	defer func() {
 		if r := recover(); r != nil {
